@@ -293,3 +293,21 @@ Fixpoint t_run (cap : Z) (buf : list Z) (ops : list sop) : tres :=
 Definition t_destroy (buf : list Z) : list (list Z) := snd (t_spill buf).
 
 Definition block_cap : Z := Z.max block_queue_min kToStringMaxBytes.
+
+(* ------------------------------------------------------------------ *)
+(* FakeOStream over util::StringStream (exception messages): Ensure(amount) resizes the string by
+   [amount], the formatter stores into that room, AdvanceTo shrinks the string to the returned end.
+   None = a store beyond the room that Ensure made. *)
+Definition ss_step (str : list Z) (o : sop) : option (list Z) :=
+  match o with
+  | SWrite data => Some (str ++ data)
+  | SPut c => Some (str ++ [c])
+  | SNumber kbytes f => if (f_foot f <=? kbytes) && (zlen (f_out f) <=? kbytes) then Some (str ++ f_out f) else None
+  | SFlush => Some str
+  end.
+
+Fixpoint ss_run (str : list Z) (ops : list sop) : option (list Z) :=
+  match ops with
+  | [] => Some str
+  | o :: r => match ss_step str o with None => None | Some s => ss_run s r end
+  end.
